@@ -7,6 +7,7 @@ correspondence streams explore (the `W1` flag of the heap dumps).
 import Ajson.Spec.WF
 import Ajson.Model.Decode
 import Ajson.Proofs.HeapBasics
+import Ajson.Proofs.WFInv
 
 namespace Ajson.Props.C06
 open Ajson Ajson.Heap
@@ -96,6 +97,33 @@ theorem C06_parent_lists_child (h : Heap) (hw : h.WF) (n q : Id) (hn : n < h.siz
 /-- no node is its own parent; every parent chain ends (no node is its own ancestor) -/
 theorem C06_chain_ends (h : Heap) (hw : h.WF) (n : Id) (hn : n < h.size) : chainEnds (h.size + 1) h n = true :=
   (wf_node h hw n hn).2.1
+
+/-! ### the same consequences from the propositional invariant `Struct` (which the mutators are proved to preserve, `Props.C05`) -/
+
+/-- every node is held by at most one container, the one `Parent()` names -/
+theorem C06_struct_single_owner {h : Heap} (hs : Proofs.Struct h) (p q : Nat) (hp : p < h.size) (hq : q < h.size)
+    (kc kc' : Bytes × Id) (hcp : kc ∈ h.childMap p) (hcq : kc' ∈ h.childMap q) (he : kc.2 = kc'.2) :
+    p = q ∧ (h.get kc.2).parent = some p := by
+  have a := ((hs p hp).kids kc hcp).2.2.1
+  have b := ((hs q hq).kids kc' hcq).2.2.1
+  rw [← he, a] at b
+  exact ⟨Option.some.inj b, a⟩
+
+/-- detached nodes are exactly those without a parent: a node with a parent is listed by it -/
+theorem C06_struct_parent_lists {h : Heap} (hs : Proofs.Struct h) (n q : Nat) (hn : n < h.size) (hp : (h.get n).parent = some q) :
+    q < h.size ∧ (h.get q).type.isContainer = true ∧ (n : Id) ∈ (h.childMap q).vals :=
+  let r := (hs n hn).par q hp; ⟨r.1, r.2.1, r.2.2.1⟩
+
+/-- array children carry the indexes 0 … n-1, object children their key; keys are pairwise different -/
+theorem C06_struct_positions {h : Heap} (hs : Proofs.Struct h) (p : Nat) (hp : p < h.size) :
+    (h.childMap p).keys.Nodup ∧
+    ((h.get p).type = .array → ∀ i : Nat, i < h.nchildren p → ∃ c, (h.childMap p).lookup (itoa i) = some c) ∧
+    (∀ kc ∈ h.childMap p, if (h.get p).type = .array then (h.get kc.2).index.map itoa = some kc.1 else (h.get kc.2).key = some kc.1) :=
+  ⟨(hs p hp).nodup, fun ha i hi => Option.isSome_iff_exists.mp ((hs p hp).dense ha i hi), fun kc hkc => ((hs p hp).kids kc hkc).2.2.2⟩
+
+/-- a clean node still has its source, and everything below it is clean too: Marshal may copy its bytes -/
+theorem C06_struct_clean {h : Heap} (hs : Proofs.Struct h) (p : Nat) (hp : p < h.size) (hc : (h.get p).dirty = false) :
+    (h.get p).data.isSome = true ∧ (h.get p).b1 ≠ 0 ∧ ∀ kc ∈ h.childMap p, (h.get kc.2).dirty = false := (hs p hp).clean hc
 
 /-- non-vacuity: a parsed document and a document built by constructors and mutators are well formed -/
 example : (match unmarshal "{\"a\":[1,{\"b\":null}],\"a\":2,\"c\":\"x\"}".toUTF8.toList with
